@@ -161,7 +161,7 @@ CHECKS = {
         'technique': 'exhaustive enumeration of bounded strings on the real grammar against an independent language-exact matcher',
     },
     'C07': {
-        'units': lambda t: [{'name': 't_diff', 'src': 'checks/tdiff.cpp', 'flags': [], 'opt': '-O0' if t == 'quick' else '-O1'},
+        'units': lambda t: [{'name': 't_diff', 'src': 'checks/tdiff.cpp', 'flags': ['-DNDEBUG'], 'opt': '-O0' if t == 'quick' else '-O1'},
                             plain_unit('u_c07buf', 'buf/c07_buffer.cpp', t)] +
                            ([{'name': 'u_c07buf_asan', 'src': 'buf/c07_buffer.cpp', 'flags': ['-g', '-fsanitize=address,undefined', '-fno-sanitize-recover=undefined'], 'opt': '-O1',
                               'cxx': 'clang++', 'env': {'ASAN_OPTIONS': 'detect_leaks=0'}}] if t == 'thorough' else []),
